@@ -655,6 +655,32 @@ pub fn sort_full_documents(ctx: &Ctx, tier: Tier) -> u64 {
             if walk(&m).len() != count_before {
                 ctx.violation("full-document|elements-lost-or-gained", json!({"kind": "sort-full", "version": format!("{v:?}")}));
             }
+            // the same through Element::sort() on every package of a second copy: same order rules, same result per package
+            let mb = AutosarModel::new();
+            if mb.load_buffer(text.as_bytes(), "full_b.arxml", true).is_ok() {
+                if let Some(pkgs) = mb.root_element().get_sub_element(ElementName::ArPackages) {
+                    for pkg in pkgs.sub_elements() {
+                        if let Err(msg) = guarded(|| pkg.sort()) {
+                            ctx.violation(format!("full-document|panic|element-sort|{}", last_panic_loc()), json!({"kind": "sort-full", "version": format!("{v:?}"), "msg": msg}));
+                        }
+                    }
+                }
+                let after_b = order_problems(&mb);
+                if let Some(first) = after_b.first() {
+                    let parent_kind = first.split(' ').next().unwrap_or("").to_string();
+                    ctx.violation(
+                        format!("full-document|children-not-in-specification-order-after-element-sort|{parent_kind}"),
+                        json!({"kind": "sort-full", "version": format!("{v:?}"), "parents_out_of_order": after_b.len(), "first": first}),
+                    );
+                }
+                // package by package the result equals that of the model-wide sort
+                let by_name = |m: &AutosarModel| -> BTreeMap<String, String> {
+                    m.root_element().get_sub_element(ElementName::ArPackages).map(|p| p.sub_elements().map(|e| (e.item_name().unwrap_or_default(), e.serialize())).collect()).unwrap_or_default()
+                };
+                if by_name(&m) != by_name(&mb) {
+                    ctx.violation("full-document|element-sort-and-model-sort-differ", json!({"kind": "sort-full", "version": format!("{v:?}")}));
+                }
+            }
             let t1 = m.files().next().and_then(|f| f.serialize().ok());
             m.sort();
             let t2 = m.files().next().and_then(|f| f.serialize().ok());
